@@ -156,8 +156,14 @@ def _worker_main(prop, conn, tier, slot=0):
 
 
 def _same_violation(prop, res, target, known):
+    """Same violation class at the same oracle clause; for exceptions also the same exception type
+    and innermost genjax frame (so that minimisation cannot drift into a different failure)."""
+    tsig = target.get("sig") or {}
     for v in res.get("violations") or []:
         if v.get("class") == target["class"] and v.get("clause") == target["clause"]:
+            vsig = v.get("sig") or {}
+            if any(tsig.get(k) is not None and vsig.get(k) != tsig.get(k) for k in ("exception", "frame")):
+                continue
             if match_known(prop, v, known) is None:
                 return v
     return None
@@ -425,7 +431,8 @@ def main(prop, argv=None):
         if len(seen) > 3:
             break
         mbudget = 90 if args.tier == "quick" else 300
-        small, tried = _minimise_in_fresh_worker(prop, args.tier, case, {"class": k[0], "clause": k[1]}, mbudget)
+        small, tried = _minimise_in_fresh_worker(prop, args.tier, case,
+                                                 {"class": k[0], "clause": k[1], "sig": v.get("sig")}, mbudget)
         rdir = os.path.join(VERIF, "replays", prop)
         path = os.path.join(rdir, f"{results[idx]['seed']}-{len(reported)}.json")
         rep = {
